@@ -741,9 +741,9 @@ def check_model(res, model, comp, facet, cell):
                 if cell["c2"] and not _image_side_matches(rgeom, (cell["r2"], cell["c2"]), _ORDER2[cell["rk"]]):
                     blamed.append("range=%s" % cell["rk"])
             if cell["fam"] == "gen1":
-                if not _side_matches_1d(dgeom, _par2fun_1d(cell["dk"], n), None):
+                if not _side_matches_1d(dgeom, _par2fun_1d(cell["dk"], cell["n"]), None):
                     blamed.append("domain=%s" % cell["dk"])
-                if not _side_matches_1d(rgeom, None, _fun2par_1d(cell["rk"], m)):
+                if not _side_matches_1d(rgeom, None, _fun2par_1d(cell["rk"], cell["m"])):
                     blamed.append("range=%s" % cell["rk"])
             for b in (blamed or [gfacet]):
                 res.fail("C07|LinearModel|forward-reference|%s" % b,
